@@ -17,6 +17,44 @@ package maps
 //@     invariant [complete] forall k K :: k in visited ==> (exists i int :: 0 <= i && i < len(keys) && keys[i] == k)
 //@     invariant [distinct] forall i int, j int :: 0 <= i && i < j && j < len(keys) ==> keys[i] != keys[j]
 
+// M2, the reason why Keys may be treated as a function of the map's contents (it is marked pure): two strictly
+// increasing enumerations of the same set agree position by position (induction on the position) and have the same
+// length. Proved for an arbitrary strict total order lt on strings (the three axioms below say nothing else about lt),
+// hence in particular for Go's < on strings, which is one (the solvers' own theory of str.< is too weak to carry the
+// induction directly).
+//@ spec lt(x string, y string) bool
+//@ axiom [lt_irreflexive] forall x string :: !lt(x, x)
+//@ axiom [lt_transitive] forall x string, y string, z string :: lt(x, y) && lt(y, z) ==> lt(x, z)
+//@ axiom [lt_total] forall x string, y string :: lt(x, y) || x == y || lt(y, x)
+//@ spec strictlyInc(a []string) bool = forall i int, j int :: 0 <= i && i < j && j < len(a) ==> lt(a[i], a[j])
+//@ spec sameElems(a []string, b []string) bool =
+//@      (forall i int :: 0 <= i && i < len(a) ==> (exists j int :: 0 <= j && j < len(b) && b[j] == a[i]))
+//@   && (forall j int :: 0 <= j && j < len(b) ==> (exists i int :: 0 <= i && i < len(a) && a[i] == b[j]))
+//@ lemma sorted_enumeration_prefix(a []string, b []string, k int)
+//@   property C08
+//@   induction k
+//@   requires strictlyInc(a) && strictlyInc(b) && sameElems(a, b) && k <= len(a) && k <= len(b)
+//@   ensures [agree_up_to_k] forall j int :: 0 <= j && j < k ==> a[j] == b[j]
+//@ lemma elem_of_same_elems(a []string, b []string, p int)
+//@   property C08
+//@   requires sameElems(a, b) && 0 <= p && p < len(b)
+//@   ensures [left_has_it] exists i int :: 0 <= i && i < len(a) && a[i] == b[p]
+//@ lemma elem_of_same_elems_sym(a []string, b []string, p int)
+//@   property C08
+//@   requires sameElems(a, b) && 0 <= p && p < len(a)
+//@   ensures [right_has_it] exists j int :: 0 <= j && j < len(b) && b[j] == a[p]
+//@ lemma sorted_enumeration_same_length(a []string, b []string)
+//@   property C08
+//@   uses sorted_enumeration_prefix(a, b, len(a)) sorted_enumeration_prefix(a, b, len(b)) elem_of_same_elems(a, b, len(a)) elem_of_same_elems_sym(a, b, len(b))
+//@   requires strictlyInc(a) && strictlyInc(b) && sameElems(a, b)
+//@   ensures [same_length] len(a) == len(b)
+//@ lemma sorted_enumeration_unique(a []string, b []string)
+//@   property C08
+//@   uses sorted_enumeration_same_length(a, b) sorted_enumeration_prefix(a, b, len(a))
+//@   requires strictlyInc(a) && strictlyInc(b) && sameElems(a, b)
+//@   ensures [same_length] len(a) == len(b)
+//@   ensures [same_elements_in_order] forall j int :: 0 <= j && j < len(a) ==> a[j] == b[j]
+
 // Iterate: the callback is called exactly once per key, in the order of Keys(input), i.e. in strictly
 // increasing key order (this is the higher-order contract that call sites of maps.Iterate rely on; the
 // value passed is input[key] by the one-line body).
